@@ -369,3 +369,35 @@ func (c *Ctx) returnsField(fnName, field, why string) {
 	}
 	q.add("PROV", "returns "+field, ok, pickS(ok, "every return yields the receiver's "+field, fnName+" does not return "+field+" on every path: "+why))
 }
+
+// sliceOfField: v is the named slice field's current value, possibly re-sliced (b.buffer[:n]) and possibly held in a
+// local variable. It returns the outermost re-slice on the way, if any.
+func sliceOfField(p *an.Prog, v ssa.Value, field string) (ok bool, via *ssa.Slice) {
+	seen := map[ssa.Value]bool{}
+	var walk func(v ssa.Value) bool
+	walk = func(v ssa.Value) bool {
+		if v == nil || seen[v] {
+			return false
+		}
+		seen[v] = true
+		if an.IsLoadOfField(v, field) {
+			return true
+		}
+		if sl, isS := v.(*ssa.Slice); isS {
+			if walk(sl.X) {
+				if via == nil {
+					via = sl
+				}
+				return true
+			}
+			return false
+		}
+		srcs := p.Sources(v)
+		if len(srcs) == 1 && srcs[0] != v {
+			return walk(srcs[0])
+		}
+		return false
+	}
+	ok = walk(v)
+	return ok, via
+}
